@@ -4,7 +4,7 @@
    state it, with no hypothesis left. *)
 From Coq Require Import NArith List.
 From LCP Require Import Base.CheckedMem Gen.Repo_dhdrbg Alg.HashRepo Alg.HashSpecs Alg.HashRepoProofs.
-From LCP Require Import Crypto.DrbgSpec Crypto.DrbgModel Crypto.DrbgProofs Crypto.DrbgRepo.
+From LCP Require Import Crypto.DrbgSpec Crypto.DrbgOsSpec Crypto.DrbgModel Crypto.DrbgOsModel Crypto.DrbgProofs Crypto.DrbgOsProofs Crypto.DrbgRepo.
 Import ListNotations.
 Local Open Scope N_scope.
 
@@ -36,4 +36,32 @@ Proof.
              sha256_h_stream repo_hmac_sha256_buf HMAC_SHA256_spec_length _ _ _ _ _ _ H).
   - exact (repo_no_unseeded_output HMAC_SHA256_spec hctx256 hmac256_init hmac256_update drbg_h_final hmac256_buf
              sha256_h_stream repo_hmac_sha256_buf HMAC_SHA256_spec_length _ _ _ _ _ _ H).
+Qed.
+
+(* the generator over the real entropy wrapper and the system calls *)
+Theorem drbg_os_run_refines_spec reqs ss :
+  exists results st' ss' tr,
+    drbg_os_run reqs ss = Ok (results, st', ss', tr) /\
+    drbg_os_spec_run reqs ss = (results, abs_state st', spec_resolve (dinst st') ss') /\
+    suffix ss' ss.
+Proof.
+  unfold drbg_os_run, drbg_os_spec_run.
+  exact (repo_os_refines_spec HMAC_SHA256_spec hctx256 hmac256_init hmac256_update drbg_h_final hmac256_buf
+           sha256_h_stream repo_hmac_sha256_buf HMAC_SHA256_spec_length reqs dstate0 ss).
+Qed.
+
+(* ... and its trace obeys the same schedule: the run over the sessions IS the run over the
+   oracle [spec_resolve false ss] *)
+Theorem drbg_os_run_schedule reqs ss results st' ss' tr :
+  drbg_os_run reqs ss = Ok (results, st', ss', tr) ->
+  (exists b, pos_run None tr = Some b) /\
+  sched_run None tr = Some (astate_of st') /\
+  trace_oracle tr (spec_resolve false ss) = Some (spec_resolve (dinst st') ss') /\
+  (forall bytes, In (Some bytes) results -> In (EvInstantiate 48 true) tr).
+Proof.
+  unfold drbg_os_run. intros H.
+  apply (drbg_run_schedule reqs (spec_resolve false ss) results st' (spec_resolve (dinst st') ss') tr). unfold drbg_run.
+  rewrite repo_params_eq_spec in *.
+  destruct (run_sim hctx256 hmac256_init hmac256_update drbg_h_final hmac256_buf reqs dstate0 ss) as [H1 _].
+  rewrite H in H1. cbn [to_m] in H1. symmetry. exact H1.
 Qed.
